@@ -1,4 +1,5 @@
 import SedpackProofs.TreeSession
+import SedpackProofs.TreeEnum
 import SedpackProps.C10
 /-!
 # C04 — Shard-list metadata always accounts exactly for what is stored
@@ -75,6 +76,40 @@ theorem C04_written_listed (H : SList → Nat) (B fuel : Nat) (hfuel : B < fuel 
   exact appendShards_files _ _ _
 
 /-! ## C03's tree facts: enumeration order -/
+
+/-- every session of the history names its shards freshly (relative to the dataset it continues) -/
+def FreshHistory (H : SList → Nat) (fuel : Nat) : DS → List Session → Prop
+  | _, [] => True
+  | ds, se :: rest => FreshSession ds.fs se ∧ FreshHistory H fuel (session H fuel ds se) rest
+
+/-- **No shard file is listed twice, none is left unlisted** — after every history of completed sessions whose shard files
+carry fresh names (uuid4): what the depth-first walk enumerates for a split contains no file name twice, and it contains every
+shard any session of the history closed for that split (`C08_session_adds_exactly` gives the converse: nothing else). -/
+theorem C04_no_shard_listed_twice (H : SList → Nat) (B fuel : Nat) (hfuel : B < fuel + 1) (hB : 1 ≤ B) :
+    ∀ (hist : List Session) (ds : DS), Good H B ds → NamesOK ds.fs → (∀ se ∈ hist, ∀ w ∈ se, w.1 ≠ [] ∧ w.1.length ≤ B) →
+      FreshHistory H fuel ds hist →
+      ∀ s, ((shardsOf fuel (hist.foldl (session H fuel) ds).fs [s]).map (·.file)).Nodup := by
+  intro hist
+  induction hist with
+  | nil =>
+    intro ds hg hn _ _ s
+    exact shardsOf_names_nodup hg.wf fuel [s] hn.dist hn.loc
+  | cons se rest ih =>
+    intro ds hg hn hh hfresh s
+    simp only [List.foldl_cons]
+    have hse := hh se List.mem_cons_self
+    exact ih _ (session_good H B fuel hfuel hB ds se hse hg).1 (session_namesOK H B fuel hfuel hB ds se hse hg hn hfresh.1)
+      (fun se' h' => hh se' (List.mem_cons_of_mem _ h')) hfresh.2 s
+
+/-- the empty dataset satisfies the hypotheses of `C04_no_shard_listed_twice` -/
+theorem C04_empty_namesOK : NamesOK (fun _ => none : FS) :=
+  ⟨fun x _ s _ hs => by simp [filesAt] at hs, fun x => by simp [filesAt]⟩
+
+theorem C04_every_written_shard_is_enumerated (H : SList → Nat) (B fuel : Nat) (hfuel : B < fuel + 1) (hB : 1 ≤ B) (ds : DS)
+    (se : Session) (hse : ∀ w ∈ se, w.1 ≠ [] ∧ w.1.length ≤ B) (hg : Good H B ds) (hl : Linked ds.fs)
+    (w : Dir × List Shard) (hw : w ∈ se) (sh : Shard) (hsh : sh ∈ w.2) :
+    sh ∈ shardsOf fuel (session H fuel ds se).fs [w.1.headD 0] :=
+  (session_adds_exactly H B fuel hfuel hB ds se hse hg hl (w.1.headD 0) sh).mpr (Or.inr ⟨w, hw, rfl, hsh⟩)
 
 /-- `_shard_info_iterator`: own shard files in list order, then the children depth-first in the
 order of the child records -/
